@@ -189,3 +189,13 @@ spec fn exec_ok(old: &State, new: &State) -> bool {
         _ => true,
     }
 }
+
+// The native-word contract (what `call_native` ASSUMES of a word called through its function
+// pointer), stated so that it can be PROVED for the native words that are under contract.
+spec fn native_ok(old: &State, new: &State) -> bool {
+    &&& new.inv()
+    &&& new.ctx.ip == old.ctx.ip
+    &&& new.code@.len() == old.code@.len()
+    &&& new.insn_meter == old.insn_meter
+    &&& exists|n: nat| #[trigger] rev_w(old, new, n) && rev_ext(old, new, n)
+}
